@@ -47,6 +47,15 @@ def setRcb (cid id : Nat) (r : Rcb) : M Unit := modConn cid fun c => { c with rc
 def sortedRefs (s : Sub) : List (String × Nat × Nat) :=
   (s.refs.toArray.qsort (fun a b => a.1 < b.1)).toList
 
+/-- Go ranges over the `refs` map in an unspecified order; the model's order is a parameter
+    (`Gw.ord`): sorted, optionally reversed, rotated. No property depends on it. -/
+def orderedRefs (s : Sub) : M (List (String × Nat × Nat)) := do
+  let ord := (← get).ord
+  let l := sortedRefs s
+  let l := if ord % 2 == 1 then l.reverse else l
+  let k := if l.isEmpty then 0 else (ord / 2) % l.length
+  return l.drop k ++ l.take k
+
 /-- `wsConn.Access` → `Cache.Access`. -/
 def connAccess (cid uid : Nat) (t : Option Nat) : M Unit := do
   match t with
@@ -72,8 +81,9 @@ def connSubscribe (cid : Nat) (rid : String) (direct : Bool) (t : Option Nat) : 
   | some uid =>
     let s ← getSub cid uid
     if direct then
-      if s.direct ≥ 256 then return .error "system.subscriptionLimitExceeded"
-      setSub cid { s with direct := s.direct + 1 }
+      match addDirect 256 s.direct with
+      | none => return .error "system.subscriptionLimitExceeded"
+      | some d => setSub cid { s with direct := d }
     else
       setSub cid { s with indirect := s.indirect + 1 }
     return .ok uid
@@ -102,7 +112,7 @@ partial def disposeSub (cid uid : Nat) : M Unit := do
     -- unsubscribeRefs: IsSent() is read after the state became disposed
     let s1 ← getSub cid uid
     let sent := s1.isSent
-    for (_, child, _) in sortedRefs s do
+    for (_, child, _) in (← orderedRefs s) do
       connUnsubscribe cid child false sent 1 false
     modSub cid uid fun s => { s with refs := [] }
     if state0 != .deleted then cacheEnqueue eid (.unsubscribe rs ⟨cid, uid⟩)
@@ -112,7 +122,7 @@ partial def disposeSub (cid uid : Nat) : M Unit := do
 partial def unsendSub (cid uid : Nat) : M Unit := do
   modSub cid uid fun s => { s with state := .ready, indirectsent := 0 }
   let s ← getSub cid uid
-  for (_, child, _) in sortedRefs s do
+  for (_, child, _) in (← orderedRefs s) do
     modSub cid child fun cs =>
       if cs.state == .sent && cs.indirectsent > 0 then { cs with indirectsent := cs.indirectsent - 1 } else cs
 
@@ -123,7 +133,7 @@ partial def traverse (cid uid : Nat) (state : Nat)
   if s.direct > 0 then return
   let st ← cb uid state
   if st == 0 then return
-  for (_, child, _) in sortedRefs s do
+  for (_, child, _) in (← orderedRefs s) do
     traverse cid child st cb
 
 /- `wsConn.tryDelete` (gc states: 0 stop, 1 root, 2 none, 3 delete, 4 keep, 5 unsend). -/
@@ -159,7 +169,7 @@ partial def pass1 (cid uid : Nat) (state : Nat) (sentDiff : Int)
       | none => (memo ++ [(s.rid, uid, s.indirect - 1, s.indirectsent - sentDiff, 2)], 2)
   if st == 0 then return memo
   let mut memo := memo
-  for (_, child, _) in sortedRefs s do
+  for (_, child, _) in (← orderedRefs s) do
     memo ← pass1 cid child st sentDiff memo
   return memo
 
@@ -181,7 +191,7 @@ partial def pass2 (cid uid : Nat) (state : Nat) (sent : Bool)
     else (setSt memo 3, 3)
   if st == 0 then return (memo, ())
   let mut memo := memo
-  for (_, child, _) in sortedRefs s do
+  for (_, child, _) in (← orderedRefs s) do
     let (m, _) ← pass2 cid child st sent memo
     memo := m
   return (memo, ())
@@ -241,7 +251,7 @@ partial def populate (cid uid : Nat) (r : RSet) (indirect : Bool) : M RSet := do
       | _ => r
     setSub cid { s with state := .toSend }
     let mut r := r
-    for (_, child, _) in sortedRefs s do
+    for (_, child, _) in (← orderedRefs s) do
       r ← populate cid child r true
     return r
 
@@ -271,7 +281,7 @@ partial def onLoaded (cid uid id : Nat) : M Unit := do
 /-- `collectRefs`. -/
 partial def collectRefs (cid uid id : Nat) : M Unit := do
   let s ← getSub cid uid
-  for (rid, child, _) in sortedRefs s do
+  for (rid, child, _) in (← orderedRefs s) do
     let cs ← getSub cid child
     let rcb ← getRcb cid id
     if cs.isReady || rcb.refMap.contains rid then continue
@@ -294,7 +304,7 @@ partial def releaseRPC (cid uid : Nat) : M Unit := do
   let s ← getSub cid uid
   if s.state == .disposed || s.state == .sent || s.err.isSome then return
   setSub cid { s with state := .sent }
-  for (_, child, _) in sortedRefs s do
+  for (_, child, _) in (← orderedRefs s) do
     releaseRPC cid child
   unqueueEvents cid uid 1
 
@@ -435,8 +445,9 @@ partial def processEvent (cid uid : Nat) (ev : REv) : M Unit := do
   let s ← getSub cid uid
   -- queued events of a subscription disposed by an earlier event of the batch are discarded
   if s.res.isNone then return
-  if s.version != ev.version then return
-  if ev.update then setSub cid { s with version := s.version + 1 }
+  match subGate s.version ev.version ev.update with
+  | none => return
+  | some v' => setSub cid { s with version := v' }
   let c ← getConn cid
   let legacy := isLegacy c
   let typ ← match s.res with
@@ -531,7 +542,7 @@ def setResource (cid uid : Nat) : M Unit := do
       | .ok _ => pure ()
       | .error e =>
         let s ← getSub cid uid
-        for (_, child, _) in sortedRefs s do connUnsubscribe cid child false false 1 true
+        for (_, child, _) in (← orderedRefs s) do connUnsubscribe cid child false false 1 true
         modSub cid uid fun s => { s with refs := [], err := some e }
         doneLoading cid uid
         return
@@ -597,22 +608,22 @@ def runKItem (cid : Nat) (it : KItem) : M Unit := do
         | .error e => replyErr cid req e
         | .ok uid => loadAccess cid uid (.canGet (.subscribe req)) none
       | .unsubscribe =>
-        if params == "count=bad" then replyErr cid req "system.invalidParams"
-        else
-          let count : Int := if params.startsWith "count=" then ((params.drop 6).toString.toInt?).getD 1 else 1
-          if count ≤ 0 then replyErr cid req "system.invalidParams"
-          else
-            let c ← getConn cid
-            let ok ← (do
-              if c.disposing then return false
-              match sget c.subs rid with
-              | none => return false
-              | some uid =>
-                let s ← getSub cid uid
-                if s.direct < count then return false
-                connUnsubscribe cid uid true false count true
-                return true)
-            if ok then sendFrame cid s!"res {req} ok null" else replyErr cid req "system.noSubscription"
+        let count : Int := if params.startsWith "count=" then ((params.drop 6).toString.toInt?).getD 1 else 1
+        let c ← getConn cid
+        let direct ← (do
+          if c.disposing then return none
+          match sget c.subs rid with
+          | none => return none
+          | some uid => return some (← getSub cid uid).direct : M (Option Int))
+        match unsubVerdict (params == "count=bad") count direct with
+        | .invalidParams => replyErr cid req "system.invalidParams"
+        | .noSubscription => replyErr cid req "system.noSubscription"
+        | .ok =>
+          match sget c.subs rid with
+          | some uid =>
+            connUnsubscribe cid uid true false count true
+            sendFrame cid s!"res {req} ok null"
+          | none => pure ()
       | .call | .new =>
         let c ← getConn cid
         let uid ← match sget c.subs rid with
@@ -656,9 +667,7 @@ def runKItem (cid : Nat) (it : KItem) : M Unit := do
   | .accessAnswer uid a =>
     let s ← getSub cid uid
     if s.state == .disposed then return
-    let store := match a.err with
-      | none => true
-      | some e => e == "system.accessDenied"
+    let store := storeVerdict a
     setSub cid { s with flags := s.flags &&& 2, accessCbs := [],
                         access := if store then some a else s.access }
     for k in s.accessCbs do runACont cid uid k a
